@@ -1,2 +1,172 @@
-(* Model for C16 — to be written. Executable definitions only, no proofs. *)
-From WI Require Import Lib.Base Lib.Info.
+(* Model for C16: internal/crypto/elliptic/curves.go (CurveNameFromParameters,
+   primeFieldParamsMatch, namedPrimeCurves), internal/file/keys.go
+   (ecExplicitParameterAttributes) and the four containers of internal/file/der.go / pem.go
+   that reach it.  Executable definitions only, no proofs.
+
+   The step DER -> asn1struct.ECParameters is encoding/asn1's and is not modelled: the model
+   starts from the decoded field values ([ec_params]), which the harness records per case
+   (and validates against what it encoded).  Every function takes two booleans [f5 f6]:
+   [true] means the repair of that finding is in the code, [false] the code before it (kept
+   for the refutation witnesses; F5: empty base point, F6: sign of a compressed base point). *)
+From WI Require Import Lib.Base Lib.Info Lib.CurveRow.
+From WI Require gen.Curves.
+Open Scope N_scope.
+
+Definition table : list curve_row := gen.Curves.table.
+
+(* what asn1.Unmarshal into asn1struct.ECParameters (internal/asn1struct/elliptic.go:17-25)
+   yields, plus the two lazy reads of FieldId.Parameters.FullBytes the code performs *)
+Record ec_params := mk_ecp {
+  p_field : list N;        (* FieldId.FieldType: the arcs of the OID *)
+  p_prime : option Z;      (* asn1.Unmarshal(FieldId.Parameters.FullBytes, &*big.Int): Some on success *)
+  p_char2 : option Z;      (* the same bytes read as struct{FieldSize *big.Int}: Some on success *)
+  p_a : bytes;             (* Curve.A *)
+  p_b : bytes;             (* Curve.B *)
+  p_seed : bytes;          (* Curve.Seed.Bytes      (absent seed: empty, 0) *)
+  p_seed_bits : Z;         (* Curve.Seed.BitLength *)
+  p_base : bytes;          (* Base *)
+  p_order : Z;             (* Order *)
+  p_cofactor : Z           (* Cofactor (absent: 0); not looked at by the code *)
+}.
+
+Definition oid_prime_field : list N := [1; 2; 840; 10045; 1; 1].   (* internal/oid: PrimeField *)
+Definition oid_char2_field : list N := [1; 2; 840; 10045; 1; 2].   (* CharacteristicTwoField *)
+
+(* asn1.ObjectIdentifier.Equal *)
+Fixpoint oid_eqb (a b : list N) : bool :=
+  match a, b with
+  | [], [] => true
+  | x :: a', y :: b' => (x =? y) && oid_eqb a' b'
+  | _, _ => false
+  end.
+
+(* asn1.ObjectIdentifier.String *)
+Definition dotted (o : list N) : bytes := join [46] (map dec_of_N o).
+
+(* big.Int.BitLen: of the absolute value *)
+Definition bitlen (z : Z) : N := N.size (Z.abs_N z).
+
+(* Go map lookup namedPrimeCurves[fieldOrder.String()] (curves.go:20): keys are distinct
+   (instance lemma in Proofs/Curve.v), so the first hit is the hit *)
+Fixpoint lookup (t : list curve_row) (key : bytes) : option curve_row :=
+  match t with
+  | [] => None
+  | c :: r => if bytes_eqb (c_key c) key then Some c else lookup r key
+  end.
+
+Definition last_byte (l : bytes) : N := last l 0.
+
+(* primeFieldParamsMatch, curves.go:30-50 *)
+Definition params_match_gen (f5 f6 : bool) (c : curve_row) (p : ec_params) : result bool :=
+  match f5, p_base p with
+  | true, [] => Ok false                                 (* repair F5: len(b.Base) == 0 *)
+  | _, _ =>
+    if bytes_eqb (c_a c) (p_a p) && bytes_eqb (c_b c) (p_b p) &&
+       (bytes_eqb (c_seed c) (p_seed p) || (p_seed_bits p =? 0)%Z) &&
+       (c_order c =? p_order p)%Z
+    then
+      match p_base p with
+      | [] => Panic "curves.go: b.Base[0] index out of range [0] with length 0"
+      | b0 :: rest =>
+          if b0 =? 0 then
+            Ok (Nat.eqb (length (p_base p)) 1 && bytes_eqb (c_gx c) [0] && bytes_eqb (c_gy c) [0])
+          else if (b0 =? 2) || (b0 =? 3) then
+            if f6 then
+              (* repair F6: the prefix carries the parity of y *)
+              Ok (negb (Nat.eqb (length (c_gy c)) 0) &&
+                  (b0 =? 2 + (last_byte (c_gy c)) mod 2) && bytes_eqb (c_gx c) rest)
+            else Ok (bytes_eqb (c_gx c) rest)
+          else if b0 =? 4 then
+            (* append(a.BaseX, a.BaseY...): the value is X||Y.  The dumped (len, cap) pairs show cap = len for
+               every slice under go1.23.5 (hex.DecodeString allocates exactly), so the append copies and
+               the table is never written; the [table] op of the check re-reads the table after the run *)
+            Ok (bytes_eqb (c_gx c ++ c_gy c) rest)
+          else Ok false
+      end
+    else Ok false
+  end.
+
+(* CurveNameFromParameters, curves.go:16-28, up to the table row that matched *)
+Definition infer_row_gen (f5 f6 : bool) (t : list curve_row) (p : ec_params) : result (option curve_row) :=
+  if oid_eqb (p_field p) oid_prime_field then
+    match p_prime p with
+    | Some z =>
+        match lookup t (dec_of_Z z) with
+        | Some c =>
+            let* m := params_match_gen f5 f6 c p in
+            Ok (if m then Some c else None)
+        | None => Ok None
+        end
+    | None => Ok None
+    end
+  else Ok None.
+
+(* the returned string: names.Curve(candidate.Name), or "" *)
+Definition curve_name_gen (f5 f6 : bool) (t : list curve_row) (p : ec_params) : result bytes :=
+  let* r := infer_row_gen f5 f6 t p in
+  Ok (match r with Some c => c_display c | None => [] end).
+
+(* names.FieldTypeFromOid, internal/names/curves.go:66-75: compares the dotted strings *)
+Definition field_type_name (o : list N) : bytes :=
+  if bytes_eqb (dotted o) (dotted oid_prime_field) then bs "prime field"
+  else if bytes_eqb (dotted o) (dotted oid_char2_field) then bs "characteristic 2 field"
+  else dotted o.
+
+(* ecExplicitParameterAttributes, internal/file/keys.go:104-128 *)
+Definition explicit_attrs_gen (f5 f6 : bool) (t : list curve_row) (p : ec_params) : result (list (bytes * bytes)) :=
+  let ft := [(bs "Field type", field_type_name (p_field p))] in
+  let ps := if oid_eqb (p_field p) oid_prime_field then
+              match p_prime p with
+              | Some z => [(bs "Prime size", dec_of_N (bitlen z) ++ bs " bits")]
+              | None => []
+              end
+            else [] in
+  let fs := if oid_eqb (p_field p) oid_char2_field then
+              match p_char2 p with
+              | Some m => [(bs "Field size", bs "2^" ++ dec_of_Z m)]
+              | None => []
+              end
+            else [] in
+  let* nm := curve_name_gen f5 f6 t p in
+  Ok (ft ++ ps ++ fs ++ match nm with [] => [] | _ => [(bs "Curve (inferred)", nm)] end).
+
+(* The containers.  [kind]: 0 SubjectPublicKeyInfo (parsePKIXPublicKey, der.go:264-279 and
+   keys.go:64-70), 1 PKCS#8 (parsePKCS8PrivateKey, der.go:281-322), 2 SEC1 ECPrivateKey
+   (parseECPrivateKey, der.go:354-368; keys.go:148-160), 3 "EC PARAMETERS" (parseECParameters,
+   der.go:337-352, reached from pem.go:43-48).  [state]: what decoding gave (from the harness):
+   2 explicit parameters [p]; 1 the container decodes but parseECParameters returns an error;
+   0 the container itself does not decode (only predictable inside PEM: parsePEMBlock falls
+   back to UnknownPEMData). *)
+Definition algo_ecdsa : bytes * bytes := (bs "Algorithm", bs "ECDSA").
+
+Definition container_info_gen (f5 f6 : bool) (t : list curve_row) (kind : N) (pem : bool) (state : N)
+    (p : ec_params) : result info :=
+  if state =? 2 then
+    let* ea := explicit_attrs_gen f5 f6 t p in
+    if kind =? 0 then Ok (leaf (bs "PKIX public key") (algo_ecdsa :: ea))
+    else if kind =? 1 then Ok (leaf (bs "PKCS#8 private key") (algo_ecdsa :: ea))
+    else if kind =? 2 then Ok (leaf (bs "EC private key") (algo_ecdsa :: ea))
+    else if pem then Ok (leaf (bs "EC parameters") ea)
+    else Err "bare EC parameters have no DER route"
+  else if state =? 1 then
+    if kind =? 0 then Ok (leaf (bs "PKIX public key") [algo_ecdsa])
+    else if kind =? 1 then Ok (leaf (bs "PKCS#8 private key") [algo_ecdsa])
+    else if (kind =? 3) && pem then Ok (leaf (bs "unknown PEM data") [])
+    else Err "not described by the model"
+  else if pem then Ok (leaf (bs "unknown PEM data") [])
+  else Err "not described by the model".
+
+(* the code as it stands: [false] until the repairs are committed in the repository *)
+Definition has_f5 : bool := true.
+Definition has_f6 : bool := true.
+Definition params_match := params_match_gen has_f5 has_f6.
+Definition infer_row := infer_row_gen has_f5 has_f6 table.
+Definition curve_name := curve_name_gen has_f5 has_f6 table.
+Definition explicit_attrs := explicit_attrs_gen has_f5 has_f6 table.
+Definition container_info := container_info_gen has_f5 has_f6 table.
+
+(* the name of the inferred curve *)
+Definition infer (p : ec_params) : result (option bytes) :=
+  let* r := infer_row p in Ok (option_map c_name r).
+Definition infer_gen (f5 f6 : bool) (p : ec_params) : result (option bytes) :=
+  let* r := infer_row_gen f5 f6 table p in Ok (option_map c_name r).
